@@ -1,39 +1,14 @@
 #!/usr/bin/env python3
-"""Regenerates MANIFEST.json from the table below (developer tool; not used by checks)."""
+"""Regenerates MANIFEST.json from claims.json (developer tool; not used by checks)."""
 import json, subprocess
-
 TECH = "contract-based deductive verification (govc: weakest-precondition VCs over go/ssa + z3/cvc5)"
-
-# id -> (category, text, note)
-CLAIMS = {
- "C03": ("proof", "Contracts on the real partitioning arithmetic (HourBucketID floor for every int64) discharged for all inputs; the rest of the flush path is not yet under contract.",
-         "trusted: govc, go/ssa, SMT solvers. Not covered yet: groupByHour, sort/merge, buffer bookkeeping, schedules."),
- "C06": ("proof", "ParseEnvelope (the reader's envelope decoder) is proved panic-free and functionally exact for every byte string; a genuine uint16-wrap panic was found by the verifier, replayed, and fixed.",
-         "trusted: govc, go/ssa, SMT solvers, binary.BigEndian contract. Frame reader loop (readEntry/ReadAll) not yet under contract."),
- "C08": ("proof", "Every os/filepath sink of LocalBackend (15 methods) is reached only with a path proved inside the root by validatePath (ghost `escaped` flag over assumed lexical filepath contracts); Write/WriteReader/AppendReader promote a staging file only after all bytes were written and the file closed without error, and WriteReader only with the declared size. Found and fixed: short clean read promoted; known finding: a key resolving to the root stages outside it.",
-         "trusted: govc, go/ssa, SMT solvers; fs.spec (lexical filepath semantics, process-crash FS model, no symlinks); ValidateManifestPath / edge-sync path validators not yet under contract."),
- "C13": ("proof", "restoreDataFiles returns nil only if no per-file restore failed (loop contract with a ghost failure counter), and RestoreBackup reports completion only then; every path including cancellation is covered. The defect (failed file skipped, success reported) was found by the verifier, demonstrated by fault injection on the real code, and fixed.",
-         "trusted: govc, go/ssa, SMT solvers; ghost counter contract of streamRestoreFile; backend List completeness; byte fidelity rests on C08. Backup side not yet under contract."),
- "C26": ("proof", "Nonce cache Track/evict contracts (map-level, all states), validator freshness contract, lemma no.replay (ttl >= 2*tol+1s suffices), and call-site obligations that every NewNonceCache construction passes such a TTL. Found TTL=tolerance (fixed) and a MinInt64 drift wrap (known finding).",
-         "trusted: govc, go/ssa, SMT solvers, time.spec (ghost clock), HMAC unforgeability; mutex exclusion assumed."),
- "C28": ("proof", "Representation invariant of the sliding-window counter (total = sum of slots, index in range) is preserved by advance and Allow for every state and clock value; Allow admits only below the limit; quota tracker admits only below the hourly/daily maxima and resets only forward.",
-         "trusted: govc, go/ssa, SMT solvers, time.spec, sum axioms; physical bound (<2^62 admits) assumed; window.bound across slot boundaries and schedules are not claimed."),
-}
-
-NA_REASON = {
- "C16": "no contract within reach can express it: the mechanism is regular-expression rewriting of free SQL text judged against DuckDB's parser and executor (DESIGN.md §9)",
-}
-
+CLAIMS = json.load(open('/verif/claims.json'))
+NA_REASON = json.load(open('/verif/na_reasons.json'))
 props = [json.loads(l) for l in open('/verif/properties.jsonl')]
-try:
-    commits = subprocess.check_output(['git', '-C', '/repo', 'log', '--format=%h %s'], text=True).splitlines()
-except Exception:
-    commits = []
+commits = subprocess.check_output(['git', '-C', '/repo', 'log', '--format=%h %s'], text=True).splitlines()
 hook_commits = [c.split()[0] for c in commits if c.split(' ', 1)[1].startswith('verif:')]
-
 m = {
- "version": 1,
- "setup_cmd": "./setup.sh",
+ "version": 1, "setup_cmd": "./setup.sh",
  "hooks": {"guard": "verif",
            "enable": "go build -tags verif — the only guarded files are comment-only contract files (*/zz_contracts_verif.go: a build constraint, a package clause and //@ comments); they add no code",
            "baseline_off_cmd": "cd /repo && go test -vet=off -count=1 -timeout 25m ./...",
@@ -46,11 +21,11 @@ m = {
 for p in props:
     i = p["id"]
     if i in CLAIMS:
-        cat, text, note = CLAIMS[i]
+        c = CLAIMS[i]
         m["checks"].append({"property_id": i, "quick_cmd": "./check %s quick" % i, "thorough_cmd": "./check %s thorough" % i,
                             "evidence_file": "/verif/evidence/%s.json" % i, "replay_cmd_template": "./check %s --replay {path}" % i, "engine": "govc",
-                            "level_claimed": {"category": cat, "text": text, "design_ref": "DESIGN.md §8 " + i},
-                            "level_note": note, "technique": TECH})
+                            "level_claimed": {"category": c["category"], "text": c["text"], "design_ref": "DESIGN.md §8 " + i},
+                            "level_note": c["note"], "technique": TECH})
     else:
         m["not_applicable"].append({"property_id": i, "reason": NA_REASON.get(i, "not claimed yet: contracts for this property are still being written (DESIGN.md §8 has the plan)")})
 json.dump(m, open('/verif/MANIFEST.json', 'w'), indent=1)
